@@ -10,13 +10,6 @@ func init() {
 	verifRegister("VerifC06Fault", VerifC06Fault)
 }
 
-func nodeRel(nodes []vNode, i int) []string {
-	if nodes[i].parent < 0 {
-		return []string{nodes[i].name}
-	}
-	return append(nodeRel(nodes, nodes[i].parent), nodes[i].name)
-}
-
 func mRel(m *mNode) []string {
 	if m.parent == nil {
 		return []string{m.name}
